@@ -80,6 +80,20 @@ class AIter:
         return "AIter(obj%d,%d..%d)" % (self.vec, self.pos, self.end)
 
 
+def closure_instance(P, tid):
+    """Monomorphic instance id of the body of a closure type (None if it cannot be identified uniquely)."""
+    t = P.types[tid]
+    if t["k"] != "closure":
+        return None
+    cands = [i_ for i_ in P.inst if i_.get("def_kind") == "Closure" and i_.get("has_mir") and i_["path"] == t.get("name")]
+    if len(cands) > 1:
+        mono = t["s"][len("{closure@"):-1] if t["s"].startswith("{closure@") else None
+        exact = [i_ for i_ in cands if i_["name"] == mono]
+        if exact:
+            cands = exact
+    return cands[0]["id"] if len(cands) == 1 else None
+
+
 class AZip:
     """`a.zip(b)` of two exactly modelled slice iterators."""
     kind = "azip"
@@ -390,9 +404,9 @@ class Lib:
         for a_ in inst.get("args", []):
             t = it.p.types[a_]
             if t["k"] == "closure":
-                c = [i_["id"] for i_ in it.p.inst if i_.get("def_kind") == "Closure" and i_.get("has_mir") and i_["path"] == t.get("name")]
-                if len(c) == 1:
-                    body = c[0]
+                ci = closure_instance(it.p, a_)
+                if ci is not None:
+                    body = ci
         if body is None:
             raise Undecided("cannot identify the closure passed to %s" % inst["name"][:80])
         fcell = st.new_obj(args[1])
@@ -454,7 +468,8 @@ class Lib:
             for a_ in inst.get("args", []):
                 t = it.p.types[a_]
                 if t["k"] == "closure":
-                    bodies = [i_["id"] for i_ in it.p.inst if i_.get("def_kind") == "Closure" and i_.get("has_mir") and i_["path"] == t.get("name")]
+                    ci = closure_instance(it.p, a_)
+                    bodies = [ci] if ci is not None else []
             if len(set(bodies)) != 1:
                 raise Undecided("cannot identify the closure passed to %s" % inst["name"][:80])
         body = bodies[0]
@@ -908,9 +923,9 @@ class FmtLib:
         for a_ in inst.get("args", []):
             t = it.p.types[a_]
             if t["k"] == "closure":
-                c = [i_["id"] for i_ in it.p.inst if i_.get("def_kind") == "Closure" and i_.get("has_mir") and i_["path"] == t.get("name")]
-                if len(c) == 1:
-                    body = c[0]
+                ci = closure_instance(it.p, a_)
+                if ci is not None:
+                    body = ci
         if body is None:
             raise Undecided("cannot identify the closure passed to %s" % inst["name"][:80])
         fcell = st.new_obj(args[1])
